@@ -101,7 +101,7 @@ func c20FreeRun(h c20Harness) {
 			return api.OnEndResult{}, nil
 		})
 	}}
-	ctx, err := api.Context(api.BuildOptions{EntryPoints: []string{"virtual:entry"}, Bundle: true, Write: false, LogLevel: api.LogLevelSilent, Plugins: []api.Plugin{plugin}, Format: api.FormatESModule, Outfile: "/out.js", AbsWorkingDir: "/"})
+	ctx, err := api.Context(api.BuildOptions{EntryPoints: []string{"virtual:entry"}, Bundle: true, Write: false, LogLevel: api.LogLevelSilent, Plugins: []api.Plugin{plugin}, Format: api.FormatESModule, Outfile: "/out.js", AbsWorkingDir: "/", Inject: []string{"virtual:inject"}})
 	if err != nil {
 		panic(fmt.Sprintf("context: %v", err))
 	}
